@@ -3,6 +3,7 @@
   Model: AmiscModel.Sys Part 1 (`runComp`, `sweep`, `toposort`, `predictFF`).
 -/
 import AmiscProofs.SweepProofs
+import AmiscProofs.ToposortProofs
 
 namespace Amisc.C07
 
@@ -55,11 +56,55 @@ theorem targets_subset_same_values (p q : List SComp) (hu : UniqueProducers (p +
   rw [List.nodup_append] at hnd
   exact hnd.2.2 c hc d hd hcd
 
+/-! ## the full model function `predictFF` (dependency sort included) -/
+
+/-- a system "has no feedback loop": some arrangement of the listed components is a topological order -/
+def Acyclic (cs : List SComp) : Prop := ∃ o : List SComp, o.Perm cs ∧ isTopo cs [] o = true
+
+theorem acyclic_perm {cs cs' : List SComp} (h : cs.Perm cs') (ha : Acyclic cs) : Acyclic cs' := by
+  obtain ⟨o, ho, ht⟩ := ha
+  refine ⟨o, ho.trans h, ?_⟩
+  rw [← isTopo_congr_all (fun v => produced_perm h v)]
+  exact ht
+
+/-- the dependency sort itself is correct: it always returns a topological order, and for an acyclic system with distinct
+    component names a permutation of the listed components -/
+theorem sort_is_topological (cs : List SComp) : isTopo cs [] (toposort cs) = true := toposort_isTopo cs
+
+theorem sort_is_permutation (cs : List SComp) (hn : (cs.map (·.name)).Nodup) (ha : Acyclic cs) :
+    (toposort cs).Perm cs := toposort_perm cs hn ha
+
+/-- **`System.predict` on a feed-forward system computes the coupled solution**: whatever the listing, the returned
+    environment equals the input on exogenous variables and satisfies `e v = c.fn e v` for every output of every component -/
+theorem predictFF_is_coupled_solution (cs : List SComp) (hn : (cs.map (·.name)).Nodup) (hu : UniqueProducers cs)
+    (hr : ReadsIns cs) (hnd : cs.Nodup) (ha : Acyclic cs) (x : Env) : Sol cs x (predictFF cs x) := by
+  have hp := toposort_perm cs hn ha
+  have ht : isTopo (toposort cs) [] (toposort cs) = true := by
+    rw [isTopo_congr_all (fun v => produced_perm hp v)]
+    exact toposort_isTopo cs
+  exact sol_perm hp (sweep_sol (toposort cs) (uniqueProducers_perm hp.symm hu) (readsIns_perm hp.symm hr)
+    (hp.nodup_iff.mpr hnd) ht x)
+
+/-- **… and therefore does not depend on the order in which the components were listed or inserted** -/
+theorem predictFF_listing_invariant (cs cs' : List SComp) (h : cs.Perm cs') (hn : (cs.map (·.name)).Nodup)
+    (hu : UniqueProducers cs) (hr : ReadsIns cs) (hnd : cs.Nodup) (ha : Acyclic cs) (x : Env) :
+    ∀ v, predictFF cs x v = predictFF cs' x v := by
+  have s1 := predictFF_is_coupled_solution cs hn hu hr hnd ha x
+  have s2 := predictFF_is_coupled_solution cs' ((h.map _).nodup_iff.mp hn) (uniqueProducers_perm h hu)
+    (readsIns_perm h hr) (h.nodup_iff.mp hnd) (acyclic_perm h ha) x
+  have hp := toposort_perm cs hn ha
+  have ht : isTopo (toposort cs) [] (toposort cs) = true := by
+    rw [isTopo_congr_all (fun v => produced_perm hp v)]
+    exact toposort_isTopo cs
+  exact sol_unique (toposort cs) (readsIns_perm hp.symm hr) ht x _ _ (sol_perm hp.symm s1)
+    (sol_perm (h.symm.trans hp.symm) s2)
+
 /-! non-vacuity: a two-component chain listed in both orders -/
 def cA : SComp := { name := "a", ins := ["x"], outs := ["y"], fn := fun e v => if v = "y" then e "x" * e "x" + 1 else 0 }
 def cB : SComp := { name := "b", ins := ["y", "x"], outs := ["z"], fn := fun e v => if v = "z" then e "y" - 3 * e "x" else 0 }
 example : isTopo [cA, cB] [] [cA, cB] = true := by decide
 example : (toposort [cB, cA]).map (·.name) = ["a", "b"] := by decide
 example : predictFF [cB, cA] (fun v => if v = "x" then 2 else 0) "z" = -1 := by decide +kernel
+example : Acyclic [cB, cA] := ⟨[cA, cB], List.Perm.swap _ _ _, by decide⟩
 
 end Amisc.C07
